@@ -10,6 +10,7 @@ a row must lie on the plane) are read off each handler's own body.
 from __future__ import annotations
 
 import ast
+import re
 import itertools
 
 from ..index import Index
@@ -313,6 +314,7 @@ def check(run):
                       key=key_of("C11-R5", "thresholds"))
     _slice_cases(run, ix, rows)
     _single_classifier(run, ix)
+    _assembly(run, ix)
     run.extra["exhaustive"] = True
     return {
         "explanation": "Complete enumeration of the abstract domain {-1,0,1}^3 through a row-wise interpreter of "
@@ -387,6 +389,61 @@ def _single_classifier(run, ix):
                                               f"the classifier treats |d| <= tol.merge as on the plane, so faces it would use are culled and the section has gaps",
                               key=key_of("C11-R10", f.qualname, nm))
     run.floor("in-repo calls of the plane routines", n10, 4)
+
+
+def _assembly(run, ix):
+    """R11 / R12: nothing is lost between the classified faces / segments and what is returned"""
+    from ..provenance import Prov
+
+    run.rule("R11", "slice_mesh_plane (cap): once the vertices are re-indexed by unique_rows the faces are re-indexed too on every path; "
+                    "an exit in between is allowed only when that index is too short for any face (len(unique) < 3)")
+    f = ix.func("trimesh.intersections:slice_mesh_plane")
+    pv = Prov(ix, f)
+    reidx = [st for st in ast.walk(f.node) if isinstance(st, ast.Assign) and ast.unparse(st.targets[0]) == "vertices" and isinstance(st.value, ast.Subscript)
+             and ast.unparse(st.value.value) == "vertices" and isinstance(st.value.slice, ast.Name)]
+    if not reidx:
+        raise AnalysisError("anchor vanished: `vertices = vertices[unique]` in slice_mesh_plane")
+    cfg = pv.cfg
+    for st in reidx:
+        uname = st.value.slice.id
+        start = cfg.nodes_of.get(id(st), [None])[0]
+        # the matching face re-index: an assignment of `faces` downstream of the vertex re-index
+        face_nodes = [n for n, s_ in cfg.stmt.items() if isinstance(s_, ast.Assign) and ast.unparse(s_.targets[0]) == "faces" and start is not None
+                      and cfg.reachable_without(start, n, set())]
+        all_exits = [n for n, s_ in cfg.stmt.items() if isinstance(s_, (ast.Continue, ast.Return, ast.Break))]
+        # the first exit on a path is the one that matters: later ones are blocked by it
+        exits = [n for n in all_exits if start is not None and cfg.reachable_without(start, n, set(face_nodes) | (set(all_exits) - {n}))]
+        bad = []
+        for n in exits:
+            g = pv.guards(cfg.stmt[n], stop=(uname,))
+            allowed = any(x in (f"len(L_{uname}) < 3", f"len(L_{uname}) == 0", f"len(L_{uname}) < 1") for x in g)
+            if not allowed:
+                bad.append((cfg.stmt[n].lineno, g[-1] if g else ""))
+        ok = bool(face_nodes) and not bad
+        run.instance("R11", f.where, f"vertices re-indexed by `{uname}` (line {st.lineno}): {len(face_nodes)} face re-index site(s) downstream, exits in between: {bad or 'only under len(' + uname + ') < 3'}", ok)
+        if not ok:
+            run.violation("R11", f.where, f"slice_mesh_plane leaves the cap branch at line {bad[0][0] if bad else '?'} (guard `{bad[0][1][:60] if bad else ''}`) after `vertices = vertices[{uname}]` but before "
+                                          f"the faces are re-indexed: the returned faces index the old vertex order", key=key_of("C11-R11", "cap-reindex"))
+    run.rule("R12", "lines_to_path hands every segment to edges_to_path: the edges are the merged vertex indices of all segments, not a filtered subset")
+    lp = ix.func("trimesh.path.exchange.misc:lines_to_path")
+    pl = Prov(ix, lp)
+    calls = [c for c in ast.walk(lp.node) if isinstance(c, ast.Call) and pl.callee(c.func) == "trimesh.path.exchange.misc.edges_to_path"]
+    if not calls:
+        raise AnalysisError("anchor vanished: edges_to_path call in lines_to_path")
+    for c in calls:
+        st = pl.stmt_of(c)
+        _, args, kw = pl.canon_call(c, st)
+        e = kw.get("edges", args[0] if args else "")
+        ok = re.fullmatch(r"trimesh\.grouping\.unique_rows\(P_lines\.reshape\(\(-1, P_lines\.shape\[-1\]\)\), digits=[\w.]+\)\[1\]\.reshape\(\(-1, 2\)\)", e) is not None
+        filt = "require_count" in e or "group_rows" in e
+        run.instance("R12", lp.where, f"edges handed to edges_to_path: `{e[:110]}`", ok)
+        if not ok:
+            if filt:
+                run.violation("R12", lp.where, f"lines_to_path filters the segments before building the path (`{e[:120]}`): a segment that occurs twice (coincident faces) is dropped "
+                                               f"entirely, so the section no longer covers the whole intersection", key=key_of("C11-R12", "filtered"))
+            else:
+                run.instance("R12", lp.where, "edges not in the recognised form - NOT decided", True, nontrivial=False)
+                run.assume(f"lines_to_path edges have an unrecognised form `{e[:80]}`")
 
 
 def _slice_cases(run, ix, rows):
